@@ -539,6 +539,12 @@ func (ms *Modules) getEntryCache(n Node) *Entry {
 	return ms.entryCache[n]
 }
 
+func (ms *Modules) dropEntryCache(n Node) {
+	ms.entryCacheMu.Lock()
+	defer ms.entryCacheMu.Unlock()
+	delete(ms.entryCache, n)
+}
+
 func (ms *Modules) setEntryCache(n Node, e *Entry) {
 	ms.entryCacheMu.Lock()
 	defer ms.entryCacheMu.Unlock()
